@@ -176,6 +176,16 @@ DeclCall(d, ep, inp, env, nv) ==
     [] ep = "parse"     -> IF inp.ok THEN DeclCtor(d, inp.v[1], env, nv) ELSE ParseErrOut   \* C06
     [] ep = "deser"     -> IF inp.ok THEN DeclCtor(d, inp.v[1], env, nv) ELSE DeErrOut      \* C04
 
+\* Is `out` an outcome the properties allow for this call?  Everything is
+\* determined (out = DeclCall) except one case: when the document does not
+\* deserialize as the inner type, C04 only demands that deserialization
+\* FAILS; which error is reported (the inner type's, the format's, or - when
+\* a prefix of the document already yielded an inner value - the
+\* validation error for that value) is not prescribed.
+DeclOK(d, ep, inp, env, nv, out) ==
+  IF ep = "deser" /\ ~inp.ok THEN out.k \in {"derr", "err"}
+  ELSE out = DeclCall(d, ep, inp, env, nv)
+
 \* C11 applies to guards whose sanitisation is idempotent by construction: only
 \* built-in sanitizers, or a single custom one from the idempotent part of the
 \* catalogue.  Validators never change a value, so any of them may be present.
